@@ -32,9 +32,8 @@ static long inf(uint32_t v) { return v == 0xffffffffu ? INF : (long) v; }
 
 static std::string project(ObjectQueue<ObjectHeaderBase> & q, long ret) {
     JObj o;
-    std::queue<ObjectHeaderBase *> copy = q.m_queue;
     std::vector<long> ids;
-    while (!copy.empty()) { ids.push_back(copy.front()->objectSize); copy.pop(); }
+    for (ObjectHeaderBase * x : snapshot(q.m_queue)) ids.push_back((long) x->objectSize);
     o.putb("abort", q.m_abort);
     o.raw("q", jarr(ids.begin(), ids.end(), [](long v) { return jint(v); }));
     // counters through the public observers, the rest from the private members
